@@ -223,3 +223,120 @@ class Driver(object):
         if not self.closed:
             self.closed = True
             self._guard('close', lambda: self.s.close())
+
+
+###############################################################################
+# interactive mode
+
+class Typist(object):
+    """
+    Poll hook that plays the user in interact() mode.
+
+    script items (dicts):
+      {'t': 'line', 'text': s}   typed (as stream characters + CR) when the engine idles at the prompt
+      {'t': 'keys', 'text': s}   same, but as key-down signals (subject to the 15-key buffer)
+      {'t': 'input', 'text': s}  typed when a running program waits for input
+      {'t': 'quit'}              QUIT when the engine idles at the prompt
+    After the script is exhausted a QUIT is delivered at the next idle prompt.
+    `extra` is an optional callable(world, typist) run at every poll before the script logic
+    (machines use it for position-keyed events).
+    """
+
+    def __init__(self, driver, script, extra=None, stall_polls=4000, input_idle=3):
+        self.d = driver
+        self.script = list(script)
+        self.pos = 0
+        self.extra = extra
+        self.idle = 0
+        self.stall_polls = stall_polls
+        self.input_idle = input_idle
+        self.stalled = 0
+        self.quit_sent = False
+        self.breaks_sent = 0
+
+    def _impl(self):
+        return self.d.s._impl
+
+    def engine_idle(self):
+        impl = self._impl()
+        kb = impl.keyboard
+        return kb.buf.empty and not kb._stream_buffer and not kb._expansion_vessel
+
+    def at_prompt(self):
+        impl = self._impl()
+        return not impl.interpreter.parse_mode and not impl._auto_mode
+
+    def __call__(self, w):
+        if self.extra is not None:
+            self.extra(w, self)
+        if self.quit_sent:
+            return
+        if not self.engine_idle() or w.inputs.pending:
+            self.idle = 0
+            return
+        self.idle += 1
+        item = self.script[self.pos] if self.pos < len(self.script) else None
+        if self.at_prompt():
+            if not w.nothing_scheduled:
+                return
+            if item is None or item['t'] == 'quit':
+                self.pos += 1
+                self.quit_sent = True
+                w.inputs.pending.append(K.sig_quit())
+                return
+            if item['t'] in ('line', 'input'):
+                self.pos += 1
+                self.idle = 0
+                w.inputs.pending.append(K.sig_stream(item['text'] + u'\r'))
+                return
+            if item['t'] == 'keys':
+                self.pos += 1
+                self.idle = 0
+                for ch in item['text'] + u'\r':
+                    w.inputs.pending.append(K.sig_key(ch, None, ()))
+                return
+        else:
+            if item is not None and item['t'] == 'input' and self.idle >= self.input_idle:
+                self.pos += 1
+                self.idle = 0
+                w.inputs.pending.append(K.sig_stream(item['text'] + u'\r'))
+                return
+            if self.idle >= self.stall_polls and w.nothing_scheduled:
+                # blocked on input that will never come (or a busy loop): Ctrl-Break
+                self.idle = 0
+                self.stalled += 1
+                self.breaks_sent += 1
+                w.stats['stalled'] += 1
+                if self.breaks_sent > 5:
+                    raise K.SimAbort('stalled')
+                w.inputs.pending.append(K.sig_break())
+
+
+def interact(driver, script, extra=None, poll_cap=200000, **kw):
+    """Run Session.interact() under a Typist until QUIT. Returns the typist."""
+    from pcbasic.basic.base import error
+    w = driver.w
+    t = Typist(driver, script, extra, **kw)
+    old = w.poll_hook
+    w.poll_hook = t
+    w.op_poll_base = w.poll_no
+    w.op_poll_cap = poll_cap
+    try:
+        try:
+            driver._guard('interact', driver.s.interact)
+        except error.Exit:
+            pass
+    finally:
+        w.poll_hook = old
+        w.op_poll_cap = None
+    return t
+
+
+def suspend_resume(driver, path):
+    """suspend -> close -> resume -> attach, the way the shipped application does."""
+    from pcbasic.basic import Session
+    driver._guard('suspend', lambda: driver.s.suspend(path))
+    driver.close()
+    s2 = driver._guard('resume', lambda: Session.resume(path))
+    driver.w.faults['restart'] += 1
+    return Driver(driver.w, session=s2)
